@@ -10,6 +10,7 @@ CONSTANTS
   Delay = 2
   Known = {}
   F1Fixed = TRUE
+  Parties = 2
 VIEW View
 INVARIANTS
   TypeOK
